@@ -94,6 +94,15 @@ def run(run, binfo):
             gens.append(([('lit', x)], {}, creds))
             gens.append(([('hole', 'k')], {'k': x}, creds))
         gens.append(([('hole', 'k')], {}, {'roles': [x, '']}))
+    # what a placeholder is filled with is taken as it is (percent signs and all); a dotted key is ONE key
+    for v in ('ops%%eu', 'ops%eu', '%(k)s', '%s', '100%', '%%'):
+        for rl in ([v], [v.upper()], [v.replace('%%', '%')], [v + v]):
+            gens.append(([('hole', 'k')], {'k': v}, {'roles': rl}))
+            gens.append(([('lit', 'x-'), ('hole', 'k')], {'k': v}, {'roles': ['x-' + r for r in rl]}))
+    for nested in ({'a': {'b': 'Ops'}}, {'a': {'b': 'Ops'}, 'a.b': 'other'}, {'target': {'secret': {'owner': 'Ops'}}},
+                   {'a': 'Ops'}, {'a': {'b': {'c': 'Ops'}}}):
+        for key in ('a.b', 'target.secret.owner'):
+            gens.append(([('hole', key)], nested, {'roles': ['ops', 'other']}))
     # names that differ by more than letter case -- compatibility forms (full width, ligature, superscript), combining
     # sequences versus precomposed letters -- are different names
     for x, other in (('admin', '\uff41\uff44\uff4d\uff49\uff4e'), ('fi', '\ufb01'), ('2', '\u00b2'), ('a', '\u00aa'),
